@@ -259,7 +259,7 @@ def run_job(spec):
     for path in paths:
         if path.status != 'ok':
             e = path.value
-            ok = isinstance(e, ValueError) or (isinstance(e, LookupError) and kw.get('encoding') == 'no-such-codec')
+            ok = isinstance(e, ValueError) or (type(e) is LookupError and kw.get('encoding') == 'no-such-codec')
             res.obligations += 1
             res.kinds.add('only-ValueError/LookupError-escapes')
             if ok:
